@@ -113,7 +113,7 @@ def check_prefix(ctx, r: Ref, mk, idle, k, where, extra=None):
         elif sum(rew) != want:
             ctx.violation("c13_sum_differs_from_objective",
                           dict(w, reward=name, rewards=rew, sum=sum(rew), want=want))
-        elif (rew[-1] if rew else 0) != ob.last_reward:
+        elif rew and rew[-1] != ob.last_reward:
             ctx.violation("c13_last_reward", dict(w, reward=name))
 
 
